@@ -28,6 +28,12 @@ def tree_oracle(name, est, rep):
             f(f"column {j} of labels_deep_ != layer {j}'s own labels", "columns")
     if list(D[:, -1]) != list(est.layers[-1].labels_a):
         f("last column != finest A-side labels", "columns")
+    # ... and the clustering each level's module holds itself (supervised: column 0 is the targets)
+    off = 1 if est.is_supervised else 0
+    for j, mod in enumerate(est.modules):
+        if j + off < L and list(D[:, j + off]) != [int(v) for v in mod.labels_]:
+            f(f"column {j + off} of labels_deep_ != the labels held by module {j}", "columns")
+            break
     # nesting
     for j in range(L - 1, 0, -1):
         m = {}
